@@ -44,12 +44,12 @@ type frag struct {
 }
 
 type c06Gen struct {
-	g      *G
-	r      *Run
-	kinds  map[string]bool
-	budget int
-	inFunc int
-	inLoop int
+	g        *G
+	r        *Run
+	kinds    map[string]bool
+	budget   int
+	inFunc   int
+	inLoop   int
 	nperturb map[string]bool
 }
 
@@ -632,7 +632,10 @@ var c06BinOps = []struct {
 	{"<<", "lshift", pShift}, {">>", "rshift", pShift}, {"&", "bitand", pBitAnd}, {"^", "bitxor", pBitXor}, {"|", "bitor", pBitOr},
 }
 
-var c06CmpOps = []struct{ toks []string; name string }{
+var c06CmpOps = []struct {
+	toks []string
+	name string
+}{
 	{tk("<"), "lt"}, {tk("<="), "lte"}, {tk(">"), "gt"}, {tk(">="), "gte"}, {tk("=="), "eq"}, {tk("!="), "noteq"},
 	{tk("in"), "in"}, {tk("not", "in"), "notin"}, {tk("is"), "is"}, {tk("is", "not"), "isnot"},
 }
